@@ -41,6 +41,13 @@ static inline double toR(double x) { return (double)(R)x; } // round to the libr
 static inline double value_of(int regime, int64_t m, int64_t e)
 {
     if (regime == 0) return (double)((int64_t)(mag64(m) % 1025) - 512) / 8.0;
+    if (regime == 2)
+    { // extreme regime: |m| < 1024 times a power of two anywhere in the upper part of the exponent range of a_real, finite
+        double const mt = (double)((int64_t)(mag64(m) % 2047) - 1023);
+        int const top = R_IS_DOUBLE ? 1010 : 114; // 1023 * 2^top stays finite in a_real
+        int const exx = top - (int)(mag64(e) % (R_IS_DOUBLE ? 700u : 90u));
+        return std::ldexp(mt, exx);
+    }
     double mant = (double)((int64_t)(mag64(m) % 2047) - 1023);
     int ex = (int)(mag64(e) % 45) - 24;
     return std::ldexp(mant, ex);
@@ -352,6 +359,7 @@ struct PidSim
             }
         }
         if (regime == 0) { if (delivered > 64) delivered = 64; if (delivered < -64) delivered = -64; }
+        if (regime == 2 && !std::isfinite(toR(delivered))) delivered = y; // a spike added to an extreme reading would leave the finite range
         delivered = toR(delivered);
         last_delivered = delivered;
         char const *name = step_name();
@@ -359,7 +367,7 @@ struct PidSim
         a_pid *pd = P(m);
         a_pid const before = *pd;
         double fz_want[3] = {0, 0, 0}; bool fz_amb = true;
-        if (ctype == 1) { double const e0 = (double)(R)((R)setp - (R)delivered); ref_fuzzy_gains(e0, (double)(R)((R)e0 - (R)before.err), fz_want, fz_amb); }
+        if (ctype == 1 && regime != 2) { double const e0 = (double)(R)((R)setp - (R)delivered); ref_fuzzy_gains(e0, (double)(R)((R)e0 - (R)before.err), fz_want, fz_amb); }
         a_pid_neuro nbefore; if (ctype == 2) nbefore = *m.nr;
         double const out = step_unit(m, setp, delivered);
         ++c.steps;
@@ -378,6 +386,17 @@ struct PidSim
         // (1) limits and finiteness, every controller type, every mode
         if (!(out >= pd->outmin && out <= pd->outmax)) return c.fail("output-outside-limits", name, "output %.17g not within [%.17g, %.17g]", out, pd->outmin, pd->outmax);
         if (out != pd->out) return c.fail("returned-output-differs-from-state", name, "returned %.17g but the stored output is %.17g", out, pd->out);
+        if (regime == 2)
+        { // extreme regime: finite gains, limits and samples so large that products and sums overflow inside the controller.
+          // Nothing about the equations or the inner state can be claimed there (the unchanged code lets the integrator
+          // overflow); what remains of C12 is that the clamp still delivers an output inside the limits - never NaN
+            c.st.add("probe.extreme_magnitude_step");
+            if (!std::isfinite((double)pd->sum) || !std::isfinite((double)pd->var)) c.st.add("probe.extreme_inner_state_overflowed");
+            y = toR(fault_val_free);
+            c.obs(bits_of(out));
+            c.st.state(fnv_mix(fnv_mix(FNV0, 0xE000u | (uint64_t)mode | ((uint64_t)ctype << 4)), (uint64_t)(out == pd->outmax) * 2 + (uint64_t)(out == pd->outmin)));
+            return true;
+        }
         double const st[] = {pd->kp, pd->ki, pd->kd, pd->sum, pd->out, pd->var, pd->fdb, pd->err};
         if (!finite_all(st, 8)) return c.fail("state-not-finite", name, "controller state contains a non-finite value (kp=%g ki=%g kd=%g sum=%g out=%g var=%g)", pd->kp, pd->ki, pd->kd, pd->sum, pd->out, pd->var);
         if (ctype == 1) { double g[] = {m.fz->kp, m.fz->ki, m.fz->kd}; if (!finite_all(g, 3)) return c.fail("state-not-finite", name, "fuzzy base gains not finite"); }
@@ -527,7 +546,7 @@ struct PidSim
     void exec(Plan const &p)
     {
         SA.reset();
-        ctype = (int)p.knob("ctype", 0) % 3; regime = (int)p.knob("regime", 0) & 1; plant = (int)p.knob("plant", 0) % 3;
+        ctype = (int)p.knob("ctype", 0) % 3; regime = (int)p.knob("regime", 0) % 3; plant = (int)p.knob("plant", 0) % 3;
         mode = (int)p.knob("mode", 1) % 3; if (ctype == 2 && mode == 1) mode = 2;
         order = (unsigned)std::max<int64_t>(1, std::min<int64_t>(7, p.knob("order", 3))); family = (int)p.knob("family", 0) % 8; opr = (unsigned)(p.knob("opr", 0) % 7);
         tabseed = (uint64_t)p.knob("tabseed", 1);
@@ -572,12 +591,13 @@ struct PidSim
                 switch (mag64(o.a[0]) % 4)
                 {
                 case 0: setp = value_of(regime, o.a[1], o.a[2]); break;
-                case 1: setp = regime == 0 ? 64 : 1e6; break;
-                case 2: setp = regime == 0 ? -64 : -1e6; break;
+                case 1: setp = regime == 0 ? 64 : regime == 2 ? value_of(2, 1023, 0) : 1e6; break;
+                case 2: setp = regime == 0 ? -64 : regime == 2 ? -value_of(2, 1023, 0) : -1e6; break;
                 default: setp = setp + value_of(regime, o.a[1], o.a[2]) / 16; break;
                 }
                 if (regime == 0) { setp = std::floor(setp * 8) / 8; if (setp > 64) setp = 64; if (setp < -64) setp = -64; }
-                else if (!(std::fabs(setp) <= 1e6)) setp = setp > 0 ? 1e6 : -1e6;
+                else if (regime == 1 && !(std::fabs(setp) <= 1e6)) setp = setp > 0 ? 1e6 : -1e6;
+                else if (regime == 2 && !std::isfinite((double)(R)setp)) setp = value_of(2, o.a[1], o.a[2]);
                 setp = toR(setp);
                 break;
             }
@@ -619,7 +639,7 @@ struct PidSim
             }
             case P_SENSOR_FAULT:
                 fault_kind = 1 + (int)(mag64(o.a[0]) % 5); fault_left = 1 + (int)(mag64(o.a[1]) % 12);
-                fault_val = regime == 0 ? (mag64(o.a[2]) & 1 ? 64.0 : -64.0) * (fault_kind == 3 ? 1 : 0.5) : value_of(1, o.a[2], o.a[3]);
+                fault_val = regime == 0 ? (mag64(o.a[2]) & 1 ? 64.0 : -64.0) * (fault_kind == 3 ? 1 : 0.5) : value_of(regime, o.a[2], o.a[3]);
                 if (regime == 1 && std::fabs(fault_val) > 1e6) fault_val = 1e6;
                 fault_val = toR(fault_val);
                 break;
@@ -966,7 +986,7 @@ struct CtlEngine : Engine
         {
             p.set("sys", 0);
             static const int CT[] = {0, 0, 1, 1, 2};
-            p.set("ctype", r.pick(CT)); p.set("regime", r.chance(1, 2)); p.set("plant", (int64_t)r.below(3)); p.set("mode", (int64_t)r.below(3));
+            p.set("ctype", r.pick(CT)); p.set("regime", r.chance(1, 2)); if (r.chance(1, 12)) p.set("regime", 2); p.set("plant", (int64_t)r.below(3)); p.set("mode", (int64_t)r.below(3));
             p.set("pair", r.chance(1, 2));
             p.set("order", (int64_t)r.range(1, 7)); p.set("family", (int64_t)r.below(8)); p.set("opr", (int64_t)r.below(7)); p.set("tabseed", (int64_t)r.below(1u << 30));
             p.set("nulltab", r.chance(1, 3) ? (int64_t)r.below(8) : 0);
